@@ -214,6 +214,74 @@ theorem C34_custom (tr : Nat → Option String) (qr : Nat → Option Nat) (body 
       simp only [Target.resolve]
       cases tr k <;> simp
 
+/-! ### The specification does not prescribe WHICH fresh values
+
+The model picks the least unused index / the first free suffix because the code does
+(`C34_default_qubits_least` is a statement about that choice).  The property, and the checker
+evaluated on the implementation's output, only need uniqueness, consistency and freshness: ANY
+assignment with these three properties yields a body that satisfies the specification — so an
+implementation that chooses other fresh values (a block above the highest fixed qubit, one shared
+suffix counter, …) is accepted, via `qubitsResolvedB_iff` / `targetsResolvedB_iff` / `stepSpecB_iff`. -/
+
+theorem C34_any_fresh_qubit_assignment (body : List Instr) (tr : Nat → Option String) (fq : Nat → Nat)
+    (hinj : ∀ k k', Qubit.placeholder k ∈ body.flatMap Instr.getQubits →
+      Qubit.placeholder k' ∈ body.flatMap Instr.getQubits → fq k = fq k' → k = k')
+    (hfresh : ∀ k, Qubit.placeholder k ∈ body.flatMap Instr.getQubits →
+      Qubit.fixed (fq k) ∉ body.flatMap Instr.getQubits) :
+    QubitsResolved Instr.getQubits body (resolveWith tr (fun k => some (fq k)) body) := by
+  have hmem : ∀ p ∈ qpairs Instr.getQubits body (resolveWith tr (fun k => some (fq k)) body),
+      ∃ q ∈ body.flatMap Instr.getQubits, p = (q, q.resolve (fun k => some (fq k))) := by
+    intro p hp
+    rw [qpairs_resolve] at hp
+    obtain ⟨q, hq, rfl⟩ := List.mem_map.mp hp
+    exact ⟨q, hq, rfl⟩
+  refine ⟨?_, ?_, ?_⟩
+  · intro p hp
+    obtain ⟨q, _, rfl⟩ := hmem p hp
+    cases q <;> simp [Qubit.resolve]
+  · intro p hp p' hp' k k' h1 h2
+    obtain ⟨q, hq, rfl⟩ := hmem p hp
+    obtain ⟨q', hq', rfl⟩ := hmem p' hp'
+    simp only at h1 h2
+    subst h1 h2
+    simp only [Qubit.resolve, Qubit.fixed.injEq]
+    exact ⟨fun h => by rw [h], hinj k k' hq hq'⟩
+  · intro p hp k h1
+    obtain ⟨q, hq, rfl⟩ := hmem p hp
+    simp only at h1
+    subst h1
+    simp only [Qubit.resolve]
+    exact hfresh k hq
+
+theorem C34_any_fresh_label_assignment (body : List Instr) (qr : Nat → Option Nat) (ft : Nat → String)
+    (hinj : ∀ k b k' b', Target.placeholder k b ∈ getTargets body →
+      Target.placeholder k' b' ∈ getTargets body → ft k = ft k' → k = k')
+    (hfresh : ∀ k b, Target.placeholder k b ∈ getTargets body → Target.fixed (ft k) ∉ getTargets body) :
+    TargetsResolved body (resolveWith (fun k => some (ft k)) qr body) := by
+  have hmem : ∀ p ∈ tpairs body (resolveWith (fun k => some (ft k)) qr body),
+      ∃ t ∈ getTargets body, p = (t, t.resolve (fun k => some (ft k))) := by
+    intro p hp
+    rw [tpairs_resolve] at hp
+    obtain ⟨t, ht, rfl⟩ := List.mem_map.mp hp
+    exact ⟨t, ht, rfl⟩
+  refine ⟨?_, ?_, ?_⟩
+  · intro p hp
+    obtain ⟨t, _, rfl⟩ := hmem p hp
+    cases t <;> simp [Target.resolve]
+  · intro p hp p' hp' k b k' b' h1 h2
+    obtain ⟨t, ht, rfl⟩ := hmem p hp
+    obtain ⟨t', ht', rfl⟩ := hmem p' hp'
+    simp only at h1 h2
+    subst h1 h2
+    simp only [Target.resolve, Target.fixed.injEq]
+    exact ⟨fun h => by rw [h], hinj k b k' b' ht ht'⟩
+  · intro p hp k b h1
+    obtain ⟨t, ht, rfl⟩ := hmem p hp
+    simp only at h1
+    subst h1
+    simp only [Target.resolve]
+    exact hfresh k b ht
+
 /-! ### The default tables -/
 
 /-- The label search always terminates within the stated fuel: the model never reports
@@ -733,6 +801,20 @@ example : resolveSeq [⟨.custom, [], [(0, 0)]⟩, ⟨.default, [], []⟩]
     [.qs "Gate" "CZ 0 0" [.placeholder 0, .placeholder 1], .qs "Gate" "CNOT 0 0" [.placeholder 0, .placeholder 2]]
     = some [[.qs "Gate" "CZ 0 0" [.fixed 0, .placeholder 1], .qs "Gate" "CNOT 0 0" [.fixed 0, .placeholder 2]],
             [.qs "Gate" "CZ 0 0" [.fixed 0, .fixed 1], .qs "Gate" "CNOT 0 0" [.fixed 0, .fixed 2]]] := by decide
+
+/-- the comparison used by the correspondence ignores WHICH fresh value was chosen (`X 0; X 2; X p`:
+p ↦ 1 as the model picks, or p ↦ 3 as a "block above the highest fixed qubit" policy would) but not
+whether a position was resolved, nor anything else -/
+example :
+    maskBody true true [.qs "Gate" "X 0" [.fixed 0], .qs "Gate" "X 0" [.fixed 2], .qs "Gate" "X 0" [.placeholder 0]]
+      [.qs "Gate" "X 0" [.fixed 0], .qs "Gate" "X 0" [.fixed 2], .qs "Gate" "X 0" [.fixed 3]] =
+    maskBody true true [.qs "Gate" "X 0" [.fixed 0], .qs "Gate" "X 0" [.fixed 2], .qs "Gate" "X 0" [.placeholder 0]]
+      [.qs "Gate" "X 0" [.fixed 0], .qs "Gate" "X 0" [.fixed 2], .qs "Gate" "X 0" [.fixed 1]] ∧
+    maskBody true true [.qs "Gate" "X 0" [.placeholder 0]] [.qs "Gate" "X 0" [.placeholder 0]] ≠
+    maskBody true true [.qs "Gate" "X 0" [.placeholder 0]] [.qs "Gate" "X 0" [.fixed 1]] ∧
+    qubitsResolvedB Instr.allQubits
+      [.qs "Gate" "X 0" [.fixed 0], .qs "Gate" "X 0" [.fixed 2], .qs "Gate" "X 0" [.placeholder 0]]
+      [.qs "Gate" "X 0" [.fixed 0], .qs "Gate" "X 0" [.fixed 2], .qs "Gate" "X 0" [.fixed 3]] = true := by decide
 
 /-! ### Regression witnesses of the repaired defect (fix: a86534e)
 
